@@ -306,6 +306,20 @@ def scalarNodeRead {F} (env : Env F) (ty : ElemTy) (s : IStream) : M (Sev × Ato
   | .select _ => throw (.unmodelled "scalarNodeRead on select")
   | .generic => throw (.unmodelled "scalarNodeRead on generic")
 
+/-- the look-up `SDAI_Select::STEPread` does on a reference: any instance of the file is found (its type is judged later) -/
+def existsLookup (lk : Lookup) : Int → RefLookup :=
+  fun id => match lk id with | some _ => .found | none => .missing
+
+/-- an entity type (in a select list: a member that is written as a bare reference) -/
+def ElemTy.isEntity : ElemTy → Bool
+  | .entity _ => true
+  | _ => false
+
+/-- an entity type one of whose names the instance answers to -/
+def ElemTy.entityIn (names : List String) : ElemTy → Bool
+  | .entity t => names.contains t
+  | _ => false
+
 /-- the type-name loop of `SDAI_Select::STEPread` case B:
     `while( c != '(' && in.good() ) { if( !eot && !( eot = isspace( c ) ) ) tmp += c; in >> c; }` -/
 def selNameLoop : Nat → List Byte → Bool → Byte → IStream → M (List Byte × IStream)
@@ -325,7 +339,7 @@ def selContentRead {F} (env : Env F) (m : SelMember) (s : IStream) : M (Sev × A
     scalarNodeRead env (if m.ty == .number then .real else m.ty) s
   | .entity target =>
     -- `ReadEntityRef` then `CanBe( _app_inst->eDesc )`; a mismatch only sets SEVERITY_USERMSG and nullifies
-    let (v, s1, e) := readEntityRef env.lex (fun id => match env.lookup id with | some _ => .found | none => .missing)
+    let (v, s1, e) := readEntityRef env.lex (existsLookup env.lookup)
       (some attrDelims) s .null
     match v with
     | some id =>
@@ -338,7 +352,7 @@ def selContentRead {F} (env : Env F) (m : SelMember) (s : IStream) : M (Sev × A
 def assignEntity {F} (env : Env F) (sd : SelectD) (id : Int) : Option SelMember :=
   match env.lookup id with
   | none => none
-  | some names => sd.members.find? (fun m => match m.ty with | .entity t => names.contains t | _ => false)
+  | some names => sd.members.find? (fun m => m.ty.entityIn names)
 
 /-- `SDAI_Select::STEPread( in, err, instances, 0, addFileId, currSch )`: the Severity it *returns* (callers overwrite
     their descriptor with it), the value, the stream -/
@@ -348,7 +362,7 @@ def selectRead {F} (env : Env F) (sd : SelectD) (s : IStream) : M (Sev × Elem F
   if isAlpha c then
     let (tmp, s3) ← selNameLoop (s2.right.length + 3) [] false c s2
     let nm := bytesToString (upperBytes tmp)
-    match sd.members.find? (fun m => m.name == nm && (match m.ty with | .entity _ => false | _ => true)) with
+    match sd.members.find? (fun m => m.name == nm && !m.ty.isEntity) with
     | some m =>
       let s4 := s3.ws
       let (e, a, s5) ← selContentRead env m s4
@@ -361,7 +375,7 @@ def selectRead {F} (env : Env F) (sd : SelectD) (s : IStream) : M (Sev × Elem F
   else if c == 44 || c == 0 then pure (.warning, .atom .unset, s2.putback c)
   else if c == 35 then
     let s3 := s2.putback c
-    let (v, s4, _) := readEntityRef env.lex (fun id => match env.lookup id with | some _ => .found | none => .missing)
+    let (v, s4, _) := readEntityRef env.lex (existsLookup env.lookup)
       (some attrDelims) s3 .null
     match v with
     | some id =>
